@@ -360,7 +360,7 @@ def history(ctx: Ctx, py: PyProgram) -> None:
     ctx.instance("C01.2/memo", "decode consumers free of memos keyed by less than their inputs", n, 8)
 
 
-def address_independence(ctx: Ctx, py: PyProgram) -> None:
+def address_independence(ctx: Ctx, py: PyProgram, rule: str = "C01.5/address-independence") -> None:
     """Whether bytes are accepted, and with what length, may not depend on the address they are decoded at: no method of the ISA
     layer that receives `addr` (lift / analyze / render / encode helpers) tests a value derived from it in an assert, an `if` or a
     loop condition.  (`x is None` tests are not value tests.)  The sweep runs at two concrete addresses; this rule covers the rest."""
@@ -394,9 +394,9 @@ def address_independence(ctx: Ctx, py: PyProgram) -> None:
                 none_only = all(isinstance(c, ast.Compare) and all(isinstance(o, (ast.Is, ast.IsNot)) for o in c.ops) for c in ast.walk(test) if isinstance(c, ast.Compare)) and any(isinstance(c, ast.Compare) for c in ast.walk(test))
                 if none_only:
                     continue
-                ctx.violation("C01.5/address-independence", key_of(rel, fn.name, "test on a value derived from the address"),
+                ctx.violation(rule, key_of(rel, fn.name, "test on a value derived from the address"),
                               f"{fn.name} tests `{unparse(test)[:80]}`, which depends on the address the instruction is decoded at: the same bytes are accepted at one address and rejected (or treated differently) at another, and only by the consumers that call this method", f"{rel}:{nd.lineno}")
-    ctx.instance("C01.5/address-independence", "ISA-layer methods receiving `addr`: no assert/if/loop condition on a value derived from it", n, 40)
+    ctx.instance(rule, "ISA-layer methods receiving `addr`: no assert/if/loop condition on a value derived from it", n, 40)
 
 
 def cached_decoder(ctx: Ctx, py: PyProgram) -> None:
